@@ -113,7 +113,7 @@ static void vf_bfs_run(struct vf_domain* d) {
     if ((s & 255) == 0 && vf_deadline_hit()) { vf_note("%s: global deadline hit at state %zu of %zu discovered", d->name, s, vf_bfs_n); break; }
     size_t n = vf_bfs_history((uint32_t)s, ops, 4096);
     int verified = 0;
-    int intact = 0;   /* the live objects are still in state s (the last operation was not enabled, or was a self-loop) */
+    int intact = 0;   /* the live objects are still untouched in state s: the last operation was not enabled */
     for (int op = 0; op < d->nops; op++) {
       vf_watchdog(60);
       vf_bfs_setcur(d, ops, n, op);
@@ -144,7 +144,9 @@ static void vf_bfs_run(struct vf_domain* d) {
       }
       d->canon(vf_bfs_canon, sizeof vf_bfs_canon);
       long idx = vf_set_put(&vf_bfs_seen, vf_bfs_canon, (uint32_t)vf_bfs_n);
-      if (idx == (long)s) { intact = 1; continue; }   /* self-loop (a query, a refused operation): same concrete state, keep it */
+      /* a self-loop (a query, a refused operation) is NOT continued from: the real operation ran, and whatever the
+      ** canonical string does not show (allocator state, stream bookkeeping, a seeded static) may differ from what a
+      ** replay of the shortest history reaches */
       if (idx < 0) {
         if (vf_bfs_n == vf_bfs_cap) { vf_bfs_cap *= 2; vf_bfs_states = realloc(vf_bfs_states, vf_bfs_cap * sizeof *vf_bfs_states); }
         uint32_t depth = vf_bfs_states[s].depth + 1;
